@@ -8,6 +8,7 @@ INVARIANT OpenPortTargetsFirstBoard
 INVARIANT AtMostTwoProbes
 INVARIANT NoLeakExceptOnFault
 INVARIANT CloseCloses
+INVARIANT HeldIsBoard
 PROPERTY OneHandlePerOpen
 PROPERTY CloseNoneIsNoOp
 PROPERTY NothingCalledB
